@@ -25,3 +25,58 @@ PROPS["C01"] = {
     "level_note": "Proved for the model; model=code is established on the executions replayed (sampled, coverage in evidence). Hint bits are uninterpreted in this layer. SC interleavings at atomic-operation granularity. Client contract assumed (acceptor rejects violations).",
     "trusted_extra": ["client contract (acceptor rejects otherwise): release only what you hold in the mode you hold it, no recursive acquisition, wait only while holding"],
 }
+
+PROPS["C07"] = {
+    "imports": ["NsyncVerif.Props.C07"],
+    "theorems": ["Once." + t for t in ["C07_at_most_once", "C07_runner_is_caller", "C07_no_early_return", "C07_exactly_once",
+                 "C07_return_only_when_done", "C07_word_meaning", "C07_winner_unique", "C07_word_monotone", "C07_done_is_wait_free",
+                 "C07_done_only_path", "C07_no_stuck_state", "C07_progress", "C07_shared_slot_independent", "C07_all_hashings",
+                 "C07_lock_discipline", "C07_spin_never_locks"]],
+    "layers": ["once", "mux"],
+    "oracles": {"once-early-return", "once-count", "stuck", "panic", "crash"},
+    "plan": {"quick": [("once", 150, 8)], "thorough": [("once", 1500, 16)]},
+    "level_text": "Kernel-checked theorems over the Once model (once.c statement by statement, one step per atomic operation / lock operation / callback boundary; any number of threads and once objects, arbitrary slot hashing): the function is entered at most once, only by the CAS winner; no call returns before the run completed; done calls are wait-free; no stuck state; deadlock freedom (C07_progress). Tied to the code by lockstep replay of harness executions of the real once.c through the Once acceptor (and the embedded mutex traffic through MuX).",
+    "level_note": "The slot mutex/cv is abstract in this layer (single-step lock/unlock; justified by C01, whose acceptor replays the same logs). Fair termination from C07_progress/C07_no_stuck_state is a paper argument. Model=code on the executions replayed.",
+    "trusted_extra": ["slot mutex behaves as a lock (C01/C02)"],
+}
+
+PROPS["C12"] = {
+    "imports": ["NsyncVerif.Props.C12"],
+    "theorems": ["NsyncVerif.Futex." + t for t in ["C12_conservation", "C12_takes_le_posts", "C12_success_le_posts", "C12_word_fits",
+                 "C12_success_needs_post", "C12_no_lost_post", "C12_post_enables", "C12_post_kept_on_timeout", "C12_future_wait_returns",
+                 "C12_future_timed_wait_returns", "C12_wait_rechecks", "C12_sleep_only_if_zero", "C12_timeout_real",
+                 "C12_no_deadline_never_times_out", "C12_faults_harmless", "C12_premature_timeout_rechecks", "C12_refines", "C12_refines_run"]],
+    "layers": ["futex"],
+    "binary": "vfh_futex",
+    "harness_args": ["futexfault=250"],
+    "oracles": {"early-timeout", "stuck", "panic", "crash", "steplimit"},
+    "plan": {"quick": [("futex", 200, 10)], "thorough": [("futex", 2000, 24)]},
+    "level_text": "Kernel-checked theorems over the Futex model (nsync_semaphore_futex.c statement by statement over a modelled kernel futex: atomic compare-and-sleep, wake-at-most-one, spurious 0 / EINTR / EAGAIN / premature ETIMEDOUT at any point; one waiter, any number of posters): word = posts - takes, success needs a post, no lost post, a post enables the waiter within 5 own steps, ETIMEDOUT only at/after the deadline, refinement to a counting semaphore. Tied to the code by lockstep replay: the real nsync_semaphore_futex.c runs under the harness with syscall() redirected to the modelled futex with fault injection.",
+    "level_note": "Kernel futex contract is an assumption (stated in Model/Futex.lean). Single waiter per semaphore (nsync's usage). 'Eventually returns' is proved as bounded solo progress (C12_post_enables) + no-lost-post invariant; the fairness step is informal. Pre-epoch deadlines are C15's subject.",
+    "trusted_extra": ["futex(2) contract: FUTEX_WAIT compares and sleeps atomically; FUTEX_WAKE(1) wakes at most one sleeper of that word"],
+}
+
+PROPS["C18"] = {
+    "imports": ["NsyncVerif.Props.C18", "NsyncVerif.Props.C15Arith"],
+    "theorems": ["NsyncVerif.Time." + t for t in ["C18_add", "C18_add_exact", "C18_sub", "C18_sub_exact", "C18_cmp", "C18_toNs_injective",
+                 "C18_cmp_total_order", "C18_cmp_consistent_with_sub", "C18_roundtrip", "C18_roundtrip'", "C18_ms", "C18_us",
+                 "C18_ms_us_no_wrap", "C18_s_ns", "C18_s_ns_any", "C18_bounds", "C18_consts"]],
+    "layers": ["time"], "engine": "pure-differential",
+    "pure": [{"name": "time_gen", "dir": "time", "flavours": ["", "_cpp"], "layer": "time"}],
+    "oracles": {"mismatch"},
+    "level_text": "Kernel-checked theorems over the Time model (time_rep.c / time_rep_timespec.cc / time_internal.c statement by statement with 64-bit two's-complement and 32-bit unsigned machine arithmetic made explicit): add/sub exact and normalized under no-overflow, cmp is the integer order on sec*1e9+nsec and a total order consistent with sub, (a+b)-b = a, ms/us/s_ns exact for every argument with no intermediate wrap, zero <= t <= no_deadline. Tied to the code by a differential run of the real C and C++11 objects against the model on the property's boundary grid plus random values.",
+    "level_note": "Signed overflow is UB in C: modelled as wrap and excluded by explicit hypotheses (the generator emits no UB cases). time_t/long 64-bit (the two default builds). The tie is sampled (grid + random), not a translation.",
+}
+
+PROPS["C16"] = {
+    "imports": ["NsyncVerif.Props.C16Buffer", "NsyncVerif.Props.C01"],
+    "theorems": ["NsyncVerif.Emit." + t for t in ["C16_buffer", "C16_cstr_unique", "C16_mu_debug_state", "C16_cv_debug_state"]] +
+                ["NsyncVerif.Props.C01.C01_exclusion", "NsyncVerif.Props.C01.C01_word_agrees"],
+    "layers": ["mux"],
+    "pure": [{"name": "emit_gen", "dir": "emit", "flavours": [""], "layer": "emit"}],
+    "oracles": {"mismatch", "debug-buffer", "exclusion", "exclusion-ann", "panic", "stuck", "crash"},
+    "plan": {"quick": [("debug", 150, 8)], "thorough": [("debug", 1500, 16)]},
+    "extra_corpus": ["C01"],
+    "level_text": "Buffer half: kernel-checked theorem C16_buffer over the Emit model (emit_init/emit_c/emit_print of debug.c) for every n (incl. 0 and negative) and every NUL-free character stream: writes only inside buf[0..n-1], NUL-terminated for n>=1, ends in '...' when truncated and n>=4, untruncated output is exact; tied by a differential run of the real debug.c (canaries around the buffer, all n in -1..80, states with 0..3 queued waiters). Observer half: a debug caller's writes to the mutex word are spinlock-only transitions in the MuX protocol, whose exclusion theorem (C01) quantifies over programs containing them; tied by lockstep replay of debug-family scenarios plus exclusion/progress oracles.",
+    "level_note": "Observer half is proved for the lock bits and the spinlock bit (MuX); that a debug caller leaves the hint bits (wake-up bookkeeping) untouched is checked by lockstep (the acceptor rejects any debug write that is not a spinlock-only change) and by the progress oracle, not yet by a theorem over the hint-bit semantics. emit_print's varargs formatting is modelled for %s and %i only (all that debug.c uses).",
+}
